@@ -28,7 +28,9 @@ REQUIRED = ['bipropCheck_sound', 'bipropCheckL_sound', 'infeasible_sound', 'infe
             'evaluate_ok_sound', 'initState_consistent', 'evaluate_sound', 'evaluate_marginals',
             'partySeats_divisor_method', 'districtSeats_divisor_method',
             'step_refusal_justified', 'run_refusal_justified', 'evaluate_refusal_justified',
-            'firstAppearance_covers', 'ordCovers_range']
+            'firstAppearance_covers', 'ordCovers_range',
+            'step_crash_free', 'run_crash_free', 'evaluate_crash_free',
+            'transfer_lowers_flaw', 'update_keeps_flaw', 'pass_lowers_potential', 'run_terminates', 'evaluate_terminates']
 REQUIRED_COUNTERS = ['transfer_step', 'coef_update', 'zero_cell', 'refusal', 'tie_in_initial_allocation',
                      'zero_vote_party', 'seats_total', 'seats_dict', 'seats_custom', 'd_hondt', 'sainte_lague',
                      'cert_checked_by_lean', 'cut_checked_by_lean', 'large_counts', 'str_keys', 'init_ok_confirmed',
@@ -43,7 +45,8 @@ REQUIRED_COUNTERS = ['transfer_step', 'coef_update', 'zero_cell', 'refusal', 'ti
                      'zero_vote_district', 'two_zero_vote_parties', 'single_party_district', 'large_matrix', 'degenerate_dim',
                      'seatless_party', 'seatless_party_tips_district',
                      'second_call_same_object', 'second_call_after_refusal', 'second_call_smaller', 'other_config_first',
-                     'party_order_not_by_index', 'sparse_first_district_lacks_party0']
+                     'party_order_not_by_index', 'sparse_first_district_lacks_party0',
+                     'far_from_proportional_dict', 'passes_within_proved_bound']
 RULE = ('2-6 districts x 2-6 parties, non-negative integer votes (tiny 0-3, small, mid, up to 10^25; zero cells given as 0 or '
         'as a missing key; zero-vote '
         'parties), D\'Hondt and Sainte-Lague, seats as a total (1..~5m), explicit per-district dict, or custom apportioner '
@@ -52,11 +55,13 @@ RULE = ('2-6 districts x 2-6 parties, non-negative integer votes (tiny 0-3, smal
         'party keys as disjoint ints, disjoint strs, or CLASHING (party j named like district j; ints or strs, ~20% of cases). '
         'Non-trivial = at least one tie-and-transfer iteration or a refusal; distinct by canonical request.')
 NOT_VERIFIED = [
-    'termination of the tie-and-transfer loop is runtime behaviour: monitored by wall clock only (5 s per call); the Lean '
-    'port takes fuel and reports OutOfFuel instead of diverging',
-    'the tie-and-transfer algorithm is not proved to terminate; every output is certified instead.  Partial correctness of '
-    'the port (evaluate_sound, evaluate_marginals) and "refuses only infeasible instances" (evaluate_refusal_justified) ARE '
-    'proved without semantic hypotheses; they carry over to votelib only through the differential correspondence',
+    'termination of the REAL loop is runtime behaviour: monitored by wall clock (5 s per call).  For the Lean port '
+    'termination is proved (run_terminates / evaluate_terminates: every pass lowers the measure (flaw/2)*(m+n+2) + room for '
+    'labels, so fuel above (flaw0/2 + 1)*(m + n + 2) is never exhausted) and the harness compares the number of passes of '
+    'port and implementation on every modelled case; the observed maximum is reported under `assumptions` in the evidence',
+    'all theorems about the port (evaluate_sound, evaluate_marginals, evaluate_refusal_justified, evaluate_crash_free, '
+    'evaluate_terminates) carry over to votelib only through the differential correspondence (generator bounds), and the '
+    'refusal / termination theorems are for q in {0, 1/2}, the two rules of the property',
     'iteration orders: parties in order of first appearance in the input dicts (modelled exactly: firstAppearance of the '
     'presence mask, the harness inserts keys by ascending index); districts in the order of the input dict (= row index); '
     '_districts_unsat iterates a frozenset, modelled as ascending district index (CPython order for the small-int keys of '
@@ -72,10 +77,9 @@ NOT_VERIFIED = [
     'solution is not consistent with the multipliers; (3) Decimal vote counts raise TypeError inside HighestAverages '
     '(Fraction(Decimal, int)) before the evaluator starts',
 ]
-UNPROVED = ['termination of tie-and-transfer (the port reports OutOfFuel; no decreasing measure proved): monitored by wall '
-            'clock on the real code',
-            'crash-freedom of the loop (KeyError of _augment_result / ZeroDivisionError of _adj_coef unreachable in a consistent '
-            'state): not proved; the oracle reports any such exception of the real code as a violation']
+UNPROVED = []      # for the Lean port everything the property asks is proved (correctness of every returned matrix, refusal
+#                    only when infeasible, no crash, termination); what is NOT proved is listed in NOT_VERIFIED: the port
+#                    is tied to votelib by the differential correspondence, not by proof
 EXHAUSTIVE = {'thorough': True}
 TECHNIQUE = ('verified certificate checkers in Lean 4 (soundness proved for matrices of any size) applied to every output of the '
              'real evaluator, exact certificates computed by the harness; plus a fuelled Lean port of tie-and-transfer with '
@@ -562,6 +566,7 @@ def oracle(case, obs):
     row, col = _targets(case, obs)
     if row is None or col is None:
         return []                  # a marginal apportionment ties: outside the quantifier of the property
+    _note_passes(case, obs, row)
     if 'err' in obs:
         if obs['err'] == 'Timeout':
             return [('non_termination', 'no result within 5 s')]
@@ -612,6 +617,40 @@ def oracle(case, obs):
         if own is not None:
             _tag(case, 'own_multipliers_certify' if own else 'own_multipliers_do_not_certify')
     return out
+
+
+PASSES = {'max': 0, 'max_ratio': Fraction(0), 'where': None, 'cases': 0, 'above_proved_bound': 0, 'max_bound_ratio': Fraction(0)}
+ASSUMPTIONS = ['(filled in at run time) passes of the tie-and-transfer loop observed']
+
+
+def _note_passes(case, obs, row):
+    """passes of the `while True` loop of the real evaluator (transfers + coefficient updates + the final test) against
+    seats + districts x parties and against the proved bound (flaw0/2 + 1)(m + n + 2) of VL.C07.evaluate_terminates"""
+    m, n = len(case['votes']), len(case['votes'][0])
+    nup = len(obs['updates']) if 'updates' in obs else obs.get('n_updates', 0)
+    passes = obs.get('transfers', 0) + nup + 1
+    seats = _total(case)
+    ref = seats + m * n
+    PASSES['cases'] += 1
+    if passes > PASSES['max']:
+        PASSES['max'] = passes
+    if Fraction(passes, ref) > PASSES['max_ratio']:
+        PASSES['max_ratio'] = Fraction(passes, ref)
+        PASSES['where'] = f'{passes} passes, {seats} seats, {m}x{n}'
+    _tag(case, 'passes_le_seats_plus_cells' if passes <= ref else 'passes_gt_seats_plus_cells')
+    if obs.get('init') is not None and row is not None:
+        flaw0 = sum(abs(sum(r) - t) for r, t in zip(obs['init'], row))
+        bound = (flaw0 // 2 + 1) * (m + n + 2)
+        PASSES['max_bound_ratio'] = max(PASSES['max_bound_ratio'], Fraction(passes, bound))
+        if passes > bound:
+            PASSES['above_proved_bound'] += 1
+            _tag(case, 'passes_ABOVE_proved_bound')
+        else:
+            _tag(case, 'passes_within_proved_bound')
+    ASSUMPTIONS[0] = (f"observed on {PASSES['cases']} evaluations of this run: at most {PASSES['max']} passes of the loop; the largest "
+                      f"ratio passes / (seats + districts x parties) is {float(PASSES['max_ratio']):.3f} ({PASSES['where']}); the largest "
+                      f"ratio passes / proved bound (flaw0/2 + 1)(m + n + 2) is {float(PASSES['max_bound_ratio']):.3f}; "
+                      f"{PASSES['above_proved_bound']} evaluations above the proved bound")
 
 
 def signature(case, clause):
@@ -839,6 +878,10 @@ def _admit(case):
             without = ha_ref([sum(V[i][j] for j in range(n) if j not in seatless) for i in range(m)], total, case['divisor'])
             if without is not None and without != row:
                 T('seatless_party_tips_district')
+    if sp['kind'] == 'dict' and not any(v == 0 for v in cells):
+        prop = ha_ref([sum(r) for r in V], total, case['divisor'])
+        if prop is not None and 2 * sum(abs(a - b) for a, b in zip(prop, row)) >= total and obs.get('transfers', 0) >= 3:
+            T('far_from_proportional_dict')
     for pre in case.get('pre', []):
         if pre.get('same', True):
             T('second_call_same_object')
@@ -982,6 +1025,28 @@ def _directed_sparse_order(rng):
                tags=['sparse_dict', 'sparse_first_district_lacks_party0'])
 
 
+def _directed_far_dict(rng):
+    """feasible per-district dictionaries far from the vote shares (every cell has votes, so any row vector with the right
+    sum is feasible): many transfer passes; a too small bound on the passes refuses these"""
+    m, n = rng.randint(2, 6), rng.randint(2, 6)
+    divisor = rng.choice(DIVS)
+    V = [[rng.randint(1, 1000) for _ in range(n)] for _ in range(m)]
+    total = rng.randint(2 * m, 8 * m)
+    r = rng.random()
+    if r < 0.4:                    # everything to one district
+        rows = [0] * m
+        rows[rng.randrange(m)] = total
+    elif r < 0.7:                  # proportional to the votes, assigned to the districts in reverse order of size
+        prop = ha_ref([sum(x) for x in V], total, divisor) or _rand_rows(rng, m, total)
+        order = sorted(range(m), key=lambda i: sum(V[i]))
+        rows = [0] * m
+        for i, s_ in zip(order, sorted(prop, reverse=True)):
+            rows[i] = s_
+    else:
+        rows = _rand_rows(rng, m, total)
+    return _mk(rng, V, divisor, {'kind': 'dict', 'rows': rows}, keys=rng.choice(['int', 'int', 'str']), tags=['directed_far_dict'])
+
+
 def _directed_history(rng):
     """the same evaluator object used before (larger matrix first; a refused instance first), or another configuration first"""
     m, n = rng.randint(2, 4), rng.randint(2, 4)
@@ -1034,7 +1099,8 @@ def _gen(rng, tier):
                              (_directed_seatless, 'seatless_party_tips_district', D // 2),
                              (_directed_shapes, 'directed_shape', 2 * D), (_directed_config, 'directed_config', 4 * D),
                              (_directed_history, 'directed_history', 2 * D),
-                             (_directed_sparse_order, 'sparse_first_district_lacks_party0', 4 * D)]:
+                             (_directed_sparse_order, 'sparse_first_district_lacks_party0', 4 * D),
+                             (_directed_far_dict, 'far_from_proportional_dict', 2 * D)]:
         got = 0
         tries = 0
         while got < cnt and tries < 60 * cnt:
